@@ -1,6 +1,7 @@
 SPECIFICATION Spec
 CONSTANTS
   ReserveK = {1048576, 1048476, 1047552}
+  GapK = {1048576, 2097000, 1047552}
   AppendK = {64}
   MemberCounts = {}
   FieldCounts = {}
